@@ -17,7 +17,8 @@ from vlib.cmp import as_array, assert_shape, finite
 PROPERTY = "C09"
 RULE = ("Hypothesis: tensors of order 2-5 with sides 1-4 (<= 400 entries; TT-matrix: 1-3 in/out pairs with sides 1-3) of "
         "classes seeded Gaussian, small explicit integers, seeded integers, exactly low multilinear rank (random Tucker), "
-        "exactly low CP rank (rank-deficient unfoldings), exactly low TT rank, exactly low TR rank; rank vectors from 1 to "
+        "exactly low CP rank (rank-deficient unfoldings), exactly low TT rank, exactly low TR rank; integer-valued data is "
+        "handed over as float64, int64 or int32; rank vectors from 1 to "
         "beyond the mode sizes given as int or list; svd in {truncated_svd, symeig_svd}; HOOI with n_iter_max in "
         "{1,2,3,10,100} and tol in {default,0}; partial_tucker on every non-empty ascending mode subset; every TR start mode. "
         "Oracle: sigma of mode unfoldings (Tucker) / sequential unfoldings (TT, TT-matrix after the interleaving "
@@ -69,6 +70,20 @@ def _tensor(spec):
         return ref.tr_dense(_rs_cores(spec["seed"], [(rk[i], shape[i], rk[i + 1]) for i in range(len(shape))],
                                       spec.get("integer", False)))
     raise ValueError(kind)
+
+
+def _lib_in(spec, X):
+    """the array handed to the library: float64 reference data, or the same values in an integer dtype"""
+    dt = spec.get("dt")
+    if dt is None:
+        return X
+    Xi = X.astype(dt)
+    assert np.array_equal(Xi, X), "integer-dtype spec on non-integer data"
+    return Xi
+
+
+def _dt_label(spec):
+    return f"dtype={spec.get('dt') or 'float64'}"
 
 
 def _sig(mat):
@@ -128,7 +143,7 @@ def _tucker_call(case, X):
 
 def _tucker_common(case):
     X = _tensor(case["X"])
-    core, factors, modes = _tucker_call(case, X)
+    core, factors, modes = _tucker_call(case, _lib_in(case["X"], X))
     req = _rank_list(case["rank"], len(modes))
     core = as_array(core, "ranks/core")
     check(len(factors) == len(modes), "ranks/n-factors", lambda: f"{len(factors)} factors for modes {modes}")
@@ -159,7 +174,8 @@ def _tucker_info(case, X, req, modes, sigs, tails):
     return {"nontrivial": bool(trunc or lowrank_hit),
             "labels": [f"order={X.ndim}", f"kind={case['X'].get('sub', case['X']['kind'])}", f"svd={case['svd']}",
                        f"n_iter={case['n_iter']}", f"truncating={int(trunc)}", f"over_rank={int(any(r > X.shape[m] for r, m in zip(req, modes)))}",
-                       f"rank_form={'int' if isinstance(case['rank'], int) else 'list'}", f"size1_mode={int(1 in X.shape)}"]}
+                       f"rank_form={'int' if isinstance(case['rank'], int) else 'list'}", f"size1_mode={int(1 in X.shape)}",
+                       _dt_label(case["X"])]}
 
 
 def o_tucker_bounds(case):
@@ -264,10 +280,11 @@ def _tt_check(Y, factors, req, svd, group, what="tt"):
 def _o_tt(group):
     def oracle(case):
         X = _tensor(case["X"])
-        res = tensor_train(X, rank=case["rank"], svd=case["svd"])
+        res = tensor_train(_lib_in(case["X"], X), rank=case["rank"], svd=case["svd"])
         req = _rank_list(case["rank"], X.ndim, "tt")
         info, _ = _tt_check(X, list(res.factors), req, case["svd"], group)
-        info["labels"] += [f"kind={case['X'].get('sub', case['X']['kind'])}", f"rank_form={'int' if isinstance(case['rank'], int) else 'list'}"]
+        info["labels"] += [f"kind={case['X'].get('sub', case['X']['kind'])}", f"rank_form={'int' if isinstance(case['rank'], int) else 'list'}",
+                           _dt_label(case["X"])]
         return info
     return oracle
 
@@ -277,7 +294,7 @@ def _o_ttm(group):
         T = _tensor(case["X"])
         n = T.ndim // 2
         in_shape, out_shape = T.shape[:n], T.shape[n:]
-        res = tensor_train_matrix(T, rank=case["rank"], svd=case["svd"])
+        res = tensor_train_matrix(_lib_in(case["X"], T), rank=case["rank"], svd=case["svd"])
         factors = [as_array(f, "ranks/core") for f in res.factors]
         check(len(factors) == n, "ranks/n-factors", lambda: f"{len(factors)} cores for {n} pairs")
         for i, f in enumerate(factors):
@@ -309,7 +326,7 @@ def _o_ttm(group):
             if "sufficient=1" in info["labels"] or n == 1:
                 d = _norm(Mh - want)
                 check(d <= slack, f"to_matrix/exact[{case['svd']}]", lambda: f"||to_matrix - input matrix|| = {d:.3e} > {slack:.2e} at sufficient rank {req}")
-        info["labels"] += [f"kind={case['X'].get('sub', case['X']['kind'])}"]
+        info["labels"] += [f"kind={case['X'].get('sub', case['X']['kind'])}", _dt_label(case["X"])]
         return info
     return oracle
 
@@ -354,18 +371,20 @@ def _o_tr(group):
         req = _rank_list(case["rank"], N, "tr")
         plan = _tr_plan(list(X.shape), req, mode)
         labels = [f"order={N}", f"mode={mode}", f"svd={svd}", f"kind={case['X'].get('sub', case['X']['kind'])}",
-                  f"uniform_rank={int(len(set(req)) == 1)}", f"rank_form={'int' if isinstance(case['rank'], int) else 'list'}"]
+                  f"uniform_rank={int(len(set(req)) == 1)}", f"rank_form={'int' if isinstance(case['rank'], int) else 'list'}",
+                  _dt_label(case["X"])]
+        Xlib = _lib_in(case["X"], X)
         kw = {"mode": mode} if (mode or case.get("pass_mode", True)) else {}
         if plan is None:
             try:
-                tensor_ring(X, rank=case["rank"], svd=svd, **kw)
+                tensor_ring(Xlib, rank=case["rank"], svd=svd, **kw)
             except ValueError:
                 return {"nontrivial": group == "reject", "labels": labels + ["admissible=0"]}
             raise Fail("reject/inadmissible-start",
                        f"rank[{mode}]*rank[{mode + 1}] = {req[mode] * req[mode + 1]} exceeds the start unfolding "
                        f"{X.shape[mode]}x{gen.prod(X.shape) // X.shape[mode]} but no ValueError was raised")
         exp, later_trunc = plan
-        res = tensor_ring(X, rank=case["rank"], svd=svd, **kw)
+        res = tensor_ring(Xlib, rank=case["rank"], svd=svd, **kw)
         factors = [as_array(f, "ranks/core") for f in res.factors]
         check(len(factors) == N, "ranks/n-factors", lambda: f"{len(factors)} cores for order {N}")
         got = []
@@ -426,12 +445,18 @@ def _shape(draw, min_order=2, max_order=5, max_size=400, sides=SIDES):
 def _data(draw, shape, classes):
     cls = draw(st.sampled_from(classes))
     N = len(shape)
-    if cls in ("normal", "seedint"):
+    if cls == "normal":
         return {"kind": "enc", "sub": cls, "a": draw(gen.arr(shape, kinds=(cls,)))}
-    if cls == "int":
-        if gen.prod(shape) > 48:
-            return {"kind": "enc", "sub": "seedint", "a": draw(gen.arr(shape, kinds=("seedint",)))}
-        return {"kind": "enc", "sub": cls, "a": draw(gen.arr(shape, kinds=("int",)))}
+    if cls in ("int", "seedint"):
+        # integer-valued data (|entries| <= 4), handed over as float64 or in an integer dtype
+        if cls == "seedint" or gen.prod(shape) > 48:
+            spec = {"kind": "enc", "sub": "seedint", "a": draw(gen.arr(shape, kinds=("seedint",)))}
+        else:
+            spec = {"kind": "enc", "sub": cls, "a": draw(gen.arr(shape, kinds=("int",)))}
+        dt = draw(st.sampled_from([None, "int64", "int32"]))
+        if dt is not None:
+            spec["dt"] = dt
+        return spec
     seed = draw(gen.seeds)
     if cls == "tucker":
         return {"kind": "tucker", "shape": shape, "seed": seed, "ranks": [draw(st.integers(1, s)) for s in shape]}
@@ -439,15 +464,21 @@ def _data(draw, shape, classes):
         return {"kind": "cp", "shape": shape, "seed": seed, "rank": draw(st.integers(1, 3))}
     if cls == "tt":
         rk = [1] + [draw(st.integers(1, 3)) for _ in range(N - 1)] + [1]
-        return {"kind": "tt", "shape": shape, "seed": seed, "ranks": rk, "integer": draw(st.booleans())}
+        spec = {"kind": "tt", "shape": shape, "seed": seed, "ranks": rk, "integer": draw(st.booleans())}
+        if spec["integer"] and draw(st.booleans()):
+            spec["dt"] = "int64"      # entries up to a few thousand: int32 Gram matrices could overflow, so int64 only
+        return spec
     if cls == "tr":
         rk = [draw(st.integers(1, 2)) for _ in range(N)]
-        return {"kind": "tr", "shape": shape, "seed": seed, "ranks": rk + [rk[0]], "integer": draw(st.booleans())}
+        spec = {"kind": "tr", "shape": shape, "seed": seed, "ranks": rk + [rk[0]], "integer": draw(st.booleans())}
+        if spec["integer"] and draw(st.booleans()):
+            spec["dt"] = "int64"
+        return spec
     raise ValueError(cls)
 
 
 GENERIC = ("normal", "int", "seedint", "tucker", "cp", "tt")
-LOWRANK = ("tucker", "cp", "tt", "tucker", "cp", "tt", "normal")
+LOWRANK = ("tucker", "cp", "tt", "tucker", "cp", "tt", "normal", "int", "seedint")
 
 
 def _true_ranks(X, kind, modes=None):
